@@ -276,7 +276,7 @@ def is_finite(v):
 # ---------------------------------------------------------------- pools
 I64_MIN, I64_MAX, U64_MAX = -(1 << 63), (1 << 63) - 1, (1 << 64) - 1
 INT_POOL = sorted(set(
-    [0, 1, -1, 2, 10, -10, 100, 255, 256, -255, -256]
+    [0, 1, -1, 2, 10, -10, 100, 255, 256, -255, -256, 3, -3, 4, -4, 5, -5]
     + [s * (1 << k) + d for k in (7, 8, 15, 16, 31, 32, 53, 62) for d in (-2, -1, 0, 1, 2) for s in (1, -1)]
     + [I64_MIN, I64_MIN + 1, I64_MAX, I64_MAX - 1]))
 INT_POOL = [x for x in INT_POOL if I64_MIN <= x <= I64_MAX]
@@ -292,6 +292,8 @@ FLOAT_POOL = [float_to_bits(f) for f in
                7.91252914157506e-14, 8.675514674482229e-196, 127.0, 128.0, 255.0, 256.0, 65535.0, 4294967296.0,
                0.30000000000000004, 1e-5, 0.001, 12345678.0, 1e7, 123456789012345680.0,
                # between the signed and the unsigned 64-bit limits, and the neighbours of both
+               # fractions next to small integers of either sign (an integer against the float that truncates to it)
+               -3.5, -3.75, -0.25, -0.5, 0.25, 0.75, 2.5, 3.5, -4.5, 4.25, -2.0 ** 53 - 2, -1e-300,
                1e19, 1.5e19, 2.0 ** 63 + 2048, 2.0 ** 64 - 2048, 2.0 ** 63 - 1024, -(2.0 ** 63) - 2048, 2.0 ** 62, 2.0 ** 64 + 4096, 1e18]]
 SPECIAL_FLOATS = [0x7FF8000000000000, 0x7FF0000000000000, 0xFFF0000000000000, 0x7FF0000000000001, 0xFFF8000000000000]
 
